@@ -96,6 +96,10 @@ def iterIn (env : Env) (read : Loc → Option Bytes) (N : Nat) : List StrRef →
     | _, _, .panic => .panic
     | _, _, .fault f => .fault f
 
+/-- The growth oracle the driver uses for `try_get_or_intern`: grow when the number of entries is a
+power of two (roughly hashbrown's doubling). Theorems hold for *every* oracle value. -/
+def growAt (n : Nat) : Bool := n &&& (n - 1) == 0
+
 structure Rodeo where
   table : Table
   strings : List StrRef
